@@ -37,6 +37,7 @@ Ltac np_step IH :=
   | |- np (advance _ _) => apply np_advance
   | |- np (expect _ _ _) => apply np_expect
   | |- np (next_prec _ _ _) => apply np_next_prec
+  | |- np (built _ _) => unfold built
   | |- np (bind _ _) => apply np_bind; [|intros]
   | |- np (let '(_, _) := ?x in _) => destruct x
   | |- np (match ?x with _ => _ end) => destruct x
